@@ -10,6 +10,7 @@ from __future__ import annotations
 
 import ast
 
+from pv.q import text as qtext
 from pv.model import AnalysisError, walk_no_nested, params, UNKNOWN, peel
 from pv.norm import single_defs
 from pv.handlers import HandlerTable
@@ -60,7 +61,7 @@ def rule_c(model, rep):
             continue
         for r in rets:
             v = r.value
-            txt = ast.unparse(v) if v is not None else "None"
+            txt = qtext(v) if v is not None else "None"
             ok, why = _verify_ret_ok(model, unit, fn, r, sd, disabled)
             if ok is None:
                 rep.undecided(R, s, f"return `{txt[:80]}` not classified")
@@ -87,12 +88,12 @@ def _verify_ret_ok(model, unit, fn, ret, sd, disabled):
             while node is not fn:
                 par = unit.parent(node)
                 if isinstance(par, ast.If) and node in par.body:
-                    t = ast.unparse(par.test)
-                    if any(k in t for k in ("is None", "not info", "not self.identify", "not hash_info", "not cls.identify")):
+                    t = qtext(par.test)
+                    if any(t.loose(k) for k in ("is None", "not info", "not self.identify", "not hash_info", "not cls.identify")):
                         return True, f"literal False under guard `{t}` (not this hasher's format)"
-                if isinstance(par, ast.ExceptHandler) and "Mismatch" in ast.unparse(par.type or ast.Constant(value="")):
+                if isinstance(par, ast.ExceptHandler) and qtext(par.type or ast.Constant(value="")).loose("Mismatch"):
                     return True, "literal False in mismatch-exception handler"
-                if isinstance(par, ast.With) and "suppress" in ast.unparse(par.items[0].context_expr):
+                if isinstance(par, ast.With) and "suppress" in qtext(par.items[0].context_expr):
                     return True, "after suppress(...) block"
                 node = par
             # libpass argon2: `return False` after `with contextlib.suppress(...)`: statement following the with
@@ -100,7 +101,7 @@ def _verify_ret_ok(model, unit, fn, ret, sd, disabled):
             body = getattr(blk, "body", [])
             if ret in body:
                 i = body.index(ret)
-                if i and isinstance(body[i - 1], ast.With) and "suppress" in ast.unparse(body[i - 1].items[0].context_expr):
+                if i and isinstance(body[i - 1], ast.With) and qtext(body[i - 1].items[0].context_expr).loose("suppress"):
                     return True, "literal False after suppress(InvalidHash, VerifyMismatch) block"
             return False, "literal False outside a not-my-format guard: the right password is rejected"
         if v.value is True:
@@ -128,7 +129,7 @@ def _verify_ret_ok(model, unit, fn, ret, sd, disabled):
             return True, f"constant-time comparison of recomputed digest: {name}({', '.join(ops)})"
         if name.endswith(DELEGATE_SUFFIX) or name in ("cls.verify", "super().verify"):
             return True, f"delegates to {name}"
-        if name == "any" and v.args and isinstance(v.args[0], ast.GeneratorExp) and ".verify(" in ast.unparse(v.args[0].elt):
+        if name == "any" and v.args and isinstance(v.args[0], ast.GeneratorExp) and ".verify(" in qtext(v.args[0].elt):
             return True, "any(scheme.verify(...)) over configured schemes"
         return None, ""
     if isinstance(v, ast.Name):
@@ -171,7 +172,7 @@ def _all_defs(fn):
 
 
 def _expand(e, defs, depth=0):
-    txt = ast.unparse(e)
+    txt = qtext(e)
     if depth > 3:
         return txt
     for n in ast.walk(e):
@@ -217,14 +218,14 @@ def rule_d(model, rep):
     if len(rets) == 1 and isinstance(rets[0].value, ast.Call) and ast.unparse(rets[0].value.func) == "consteq" and len(rets[0].value.args) == 2:
         ops = set()
         for a in rets[0].value.args:
-            t = ast.unparse(a)
+            t = qtext(a)
             if isinstance(a, ast.Name) and a.id in sd:
-                t = ast.unparse(sd[a.id])
+                t = qtext(sd[a.id])
             ops.add(t)
         ok = ops == {f"self._calc_checksum({sec})", "self.checksum"}
     rep.check(ok, R, s, ast.unparse(rets[0]) if rets else "<none>", "verify() == consteq(self._calc_checksum(secret), stored checksum)",
               witness="verify() compares the wrong operands")
-    g = [n for n in walk_no_nested(fn) if isinstance(n, ast.If) and "is None" in ast.unparse(n.test) and any(isinstance(x, ast.Raise) for x in n.body)]
+    g = [n for n in walk_no_nested(fn) if isinstance(n, ast.If) and "is None" in qtext(n.test) and any(isinstance(x, ast.Raise) for x in n.body)]
     rep.check(len(g) == 1, R, s, ast.unparse(g[0].test) if g else "<none>", "a config string (no digest) is refused, not compared",
               witness="verify(secret, <config string>) compares against None")
     # genhash
@@ -348,7 +349,7 @@ def rule_e(model, rep):
                 rep.check(ok, R2, site(un, q), ast.unparse(node), "text passwords are encoded as UTF-8 (UTF-16 only after a UTF-8 decode)",
                           witness="verify(text) and verify(text.encode('utf-8')) disagree for non-ASCII passwords")
             else:
-                ok = "encoding" in ast.unparse(enc)
+                ok = qtext(enc).loose("encoding")
                 rep.check(ok, R2, site(un, q), ast.unparse(node), "encoding taken from the handler's `encoding` context value")
     rep.minimum(R2, 25)
 
@@ -444,7 +445,7 @@ def rule_g(model, rep):
     for q in ("_bsdi_secret_to_key", "bigcrypt._calc_checksum"):
         fn = model.func(DES, q)
         loops = [n for n in walk_no_nested(fn) if isinstance(n, ast.While)]
-        t = ast.unparse(fn)
+        t = qtext(fn)
         ok = len(loops) == 1 and ast.unparse(loops[0].test) == "idx < end" and "end = len(secret)" in t and "next = idx + 8" in t and "idx = next" in t and "secret[idx:next]" in t
         rep.check(ok, R, site(DES, q), ast.unparse(loops[0].test) if loops else "<none>", "the block loop runs while idx < len(secret) in steps of 8, so a trailing partial block is consumed too",
                   witness="a 13-byte password verifies with its 8-byte prefix (the partial last block never reaches the key)")
